@@ -5,9 +5,15 @@ cd "$(dirname "$0")"
 export GOFLAGS=-mod=mod GOPROXY=off GOTOOLCHAIN=auto
 unset GOSUMDB
 mkdir -p .build evidence replays
-cp /repo/go.sum harness/go.sum
-(cd harness && go build -tags verif -o ../.build/verifharness-setup ./cmd/verifharness)
+REPO="${VERIF_REPO:-/repo}"
+cp "$REPO/go.sum" harness/go.sum
+if [ "$REPO" = /repo ]; then
+  (cd harness && go build -tags verif -o ../.build/verifharness-setup ./cmd/verifharness)
+else
+  sed "s|=> /repo|=> $REPO|" harness/go.mod > .build/alt.go.mod; cp harness/go.sum .build/alt.go.sum
+  (cd harness && go build -modfile=../.build/alt.go.mod -tags verif -o ../.build/verifharness-setup ./cmd/verifharness)
+fi
 rm -rf lean/AnySyncModel/Generated
-./.build/verifharness-setup extract -repo /repo -out lean/AnySyncModel/Generated
+./.build/verifharness-setup extract -repo "$REPO" -out lean/AnySyncModel/Generated
 (cd lean && lake build)
 echo "setup done"
